@@ -1,9 +1,9 @@
 (* Extraction of the traversal cluster (C15, C14, C07).  ExtrOcamlBasic only. *)
 Require Import IP.Base.Bytes IP.Base.GoSem IP.DM.Value IP.Gen.FromGo
-  IP.Trav.Selector IP.Trav.Walk IP.Trav.Controls IP.Trav.Path IP.Trav.SelectorSpec IP.Trav.QuirkFree.
+  IP.Trav.Selector IP.Trav.Walk IP.Trav.Controls IP.Trav.Path IP.Trav.SelectorSpec IP.Trav.QuirkFree IP.Trav.Total.
 Require Extraction.
 Require Import ExtrOcamlBasic.
 Extraction Language OCaml.
 Extraction "model.ml" compile walk_adv walk_matching cwalk_adv no_ctl pinned repaired
   get step_deref step deref parse_path format_path seg_string seg_index seg_equals lookup_seg
-  f64_is_nan dm_eqb interests explore match_sel denote_sel enter walk_quirk_free.
+  f64_is_nan dm_eqb interests explore match_sel denote_sel enter walk_quirk_free compile_alloc chain_ok walk_fuel.
